@@ -82,7 +82,7 @@ class JniGenerator(Generator):
     def generate_loader(self):
         self.write_source(
             template="source/loader.jinja2.cpp",
-            filename=self.source_path / "loader.cpp"
+            filename=Path("loader.cpp")
         )
 
     def generate_runnable(self):
@@ -90,13 +90,13 @@ class JniGenerator(Generator):
         java_runnable_type = self.metadata.java.base_package.split('.') + ["pydjinni", "NativeRunnable"]
         self.write_header(
             template="header/schedule.jinja2.hpp",
-            filename=self.header_path / header_path,
+            filename=header_path,
             java_type_signature="/".join(java_runnable_type),
             namespace='::'.join(self.config.namespace + ["schedule"])
         )
         self.write_source(
             template="source/schedule.jinja2.cpp",
-            filename=self.source_path / "pydjinni" / "coroutine" / "schedule.cpp",
+            filename=Path("pydjinni") / "coroutine" / "schedule.cpp",
             namespace='::'.join(self.config.namespace + ["schedule"]),
             header_path=header_path,
             jni_prefix=jni_prefix(java_runnable_type)
@@ -107,13 +107,13 @@ class JniGenerator(Generator):
         java_runnable_type = self.metadata.java.base_package.split('.') + ["pydjinni", "NativeCompletion"]
         self.write_header(
             template="header/completion.jinja2.hpp",
-            filename=self.header_path / header_path,
+            filename=header_path,
             java_type_signature="/".join(java_runnable_type),
             namespace='::'.join(self.config.namespace + ["schedule"])
         )
         self.write_source(
             template="source/completion.jinja2.cpp",
-            filename=self.source_path / "pydjinni" / "coroutine" / "completion.cpp",
+            filename=Path("pydjinni") / "coroutine" / "completion.cpp",
             namespace='::'.join(self.config.namespace + ["schedule"]),
             header_path=header_path,
             jni_prefix=jni_prefix(java_runnable_type)
